@@ -14,7 +14,8 @@
 EXTENDS MemContract, Json, SequencesExt
 
 CONSTANTS PadFix, AppendFix,
-          PoolFix      \* FALSE: decryptSymmetricAEAD returns a plaintext that lives in a pooled scratch buffer
+          PoolFix,     \* FALSE: decryptSymmetricAEAD returns a plaintext that lives in a pooled scratch buffer
+          FinalizerFix \* FALSE: a finalizer of the aescbcaead cipher zeroes the (caller's) key when it is collected
 VARIABLES cf, c, pc
 vars == <<cf, c, pc>>
 
@@ -29,9 +30,14 @@ PoolWrites(x) ==
   IF ~PoolFix /\ IsRet(x) /\ x.fn \in {"Decrypt", "DecryptSymmetric"} /\ HasRow(x) /\ Row(x.alg).fam \in {"gcm", "cbchmac"}
   THEN {<<"result", "len">>} \cup (IF x.chain # "none" THEN {<<x.chain, "len">>} ELSE {}) ELSE {}
 
+FinalizerWrites(x) ==
+  IF ~FinalizerFix /\ x.fn \in AeadFns \cup {"aescbcaead.New"} /\ ~(x.fn = "aescbcaead.New" /\ x.path # "ok")
+  THEN {<<"key", "len">>} ELSE {}
+
 ImplWrites(x) ==
   LET r == Row(x.alg) IN
-  IF IsRet(x) THEN PoolWrites(x)
+  IF IsRet(x) THEN PoolWrites(x) \cup FinalizerWrites(x)
+  ELSE IF FinalizerWrites(x) # {} THEN FinalizerWrites(x)
   ELSE IF x.fn = "padding.PadPKCS7"
   THEN (IF ~PadFix /\ x.path = "ok" /\ Spare(x, "buf") >= PadLen(x.len) THEN {<<"buf", "spare">>} ELSE {})
   ELSE IF ~HasRow(x) THEN {}
